@@ -278,23 +278,31 @@ def consumer_case(case):
           "bar = static_library('bar', ['bar.c'])\n"
           "foo = %s('foo', ['foo.c'], libs=[bar])\n"
           "pkg_config('mypkg', version='1.0', includes=[%r], libs=[foo], "
-          "options=['-DFROM_PC=1'])\n" % (kind, incdir))
+          "options=['-DFROM_PC=1'])\n" % (
+              'library' if kind == 'dual' else kind, incdir))
         W(b, 'main.c', '#include <stdio.h>\n#include <foo.h>\n'
           '#if !defined(FOO_H) || FROM_PC != 1\n#error flags\n#endif\n'
           'int main(void){printf("%d\\n", foo());return 0;}\n')
         # (a static library's own dependencies are in the private fields,
         # which pkg-config hands out for static linking only)
+        # (for the dual-use library the consumer links fully statically, so
+        # that the archive - and with it its own dependencies - is what the
+        # linker takes)
         W(b, 'build.bfg', "project('b')\npkg = package('mypkg'%s)\n"
-          "executable('prog', ['main.c'], packages=[pkg])\n" % (
-              ", kind='static'" if kind == 'static_library' else ''))
+          "executable('prog', ['main.c'], packages=[pkg]%s)\n" % (
+              ", kind='static'" if kind in ('static_library', 'dual')
+              else '', ", link_options=['-static']" if kind == 'dual'
+              else ''))
         env = tool_env()
         abld = os.path.join(root, 'a_build')
         ev = {'ev': 'Consumer', 'kind': kind, 'producer_exit': -1,
               'configure_exit': -1, 'build_exit': -1, 'run_exit': -1,
               'out': -1, 'note': ''}
+        # 'dual': library() built both ways; the consumer links statically
         rc, out = run(['/venv/bin/bfg9000', 'configure', abld,
-                       '--no-resolve-packages', '--backend=make'], cwd=a,
-                      env=env)
+                       '--no-resolve-packages', '--backend=make'] + (
+                           ['--enable-shared', '--enable-static']
+                           if kind == 'dual' else []), cwd=a, env=env)
         if rc == 0:
             rc, out = run(['make', '-j2'], cwd=abld, env=env)
         ev['producer_exit'] = rc
@@ -389,7 +397,7 @@ def main(argv):
     req = pmap(requires_case, rjobs)
     fl = pmap(flags_case, flag_cases(ck)) + pmap(shape_case, shape_cases())
     fl += pmap(consumer_case, [(k, d) for k in (
-        'static_library', 'shared_library', 'library')
+        'static_library', 'shared_library', 'library', 'dual')
         for d in ('inc', 'my inc')])
     traces, meta = [], []
     for e in evs:
